@@ -1190,3 +1190,11 @@ Proof.
   - exact Hs.
 Qed.
 Print Assumptions marks_incr_run.
+
+Print Assumptions slash_dup_hash_refuted.
+Print Assumptions slash_all_delegatee_ok.
+Print Assumptions count_in_window_spec.
+Print Assumptions vote_fold_jail.
+Print Assumptions jail_votes_frame.
+Print Assumptions gov_punish_one.
+Print Assumptions stake_punish_one.
